@@ -43,7 +43,8 @@ RULE = (
     "configurations (user-defined scorers included) x 17 data kinds must run to completion; (iii) "
     "threshold-based detectors with a tuned (or zero) threshold on flat / piecewise-flat data of values "
     "that are not exactly representable (scores and tuned thresholds zero up to rounding, i.e. possibly "
-    "slightly negative) must run to completion within 20 s (n <= 50). "
+    "slightly negative) must run to completion within 20 s (n <= 50); (iv) zoo configurations on finite "
+    "data of extreme magnitude (x 1e100..1e300, x 1e-100..1e-310, offsets 1e8..1e15, mixed) likewise. "
     "Non-trivial = boundary-valued grid point (any parameter at the edge of its domain or n within 1 "
     "of the minimum); distinct by recipe digest."
 )
@@ -359,6 +360,28 @@ def degenerate_recipe(rng):
     return {"kind": "degenerate", "det": spec, "X": X, "data_kind": kind}
 
 
+def extreme_recipe(rng, which):
+    """Any valid zoo configuration on finite data of extreme magnitude: squares overflow to inf or
+    underflow to 0, offsets cancel every digit.  Still 'every finite input': must complete (or raise
+    the documented errors) with well-formed output - NaN / inf scores must not leak into the result."""
+    spec, nmin, p = random_detector(rng, dense_events=True, pmax=3, which=which)
+    n = int(rng.integers(nmin, nmin + 30))
+    base = ["mean_changes", "noise", "spikes", "flat", "steps"][int(rng.integers(5))]
+    X, _ = gen_data(rng, n, p, base)
+    mode = ["huge", "big_offset", "tiny", "mixed", "denormal"][int(rng.integers(5))]
+    if mode == "huge":
+        X = X * float([1e100, 1e154, 1e160, 1e300][int(rng.integers(4))])
+    elif mode == "big_offset":
+        X = X + float([1e8, 1e12, 1e15][int(rng.integers(3))])
+    elif mode == "tiny":
+        X = X * float([1e-100, 1e-160, 1e-200][int(rng.integers(3))])
+    elif mode == "mixed":
+        X[::3] *= 1e150
+    else:
+        X = X * 1e-310
+    return {"kind": "degenerate", "det": spec, "X": X, "data_kind": f"{base}*{mode}", "extreme": True}
+
+
 def degenerate_case(ctx, r):
     """Same oracle as the zoo (valid configuration => completes, well-formed), shorter time limit."""
     import pandas as pd
@@ -369,12 +392,12 @@ def degenerate_case(ctx, r):
     name = spec["cls"]
     data = pd.Series(X[:, 0]) if name == "StatThresholdAnomaliser" else X
     ctx.case()
-    ctx.stat("degenerate_cases")
+    ctx.stat("extreme_cases" if r.get("extreme") else "degenerate_cases")
     label = f"{short(spec)} X[{n}x{p}] data={r['data_kind']}"
     sub = f"zoo-{name}"
     I.drain()
     try:
-        with time_limit(20):
+        with time_limit(20), np.errstate(all="ignore"):
             outcome, msg, det, y = run_pipeline(spec, data, data)
     except CaseTimeout:
         ctx.violation(sub, "did-not-complete", f"{label}: no outcome within 20 s (n = {n})", r)
@@ -390,6 +413,8 @@ def degenerate_case(ctx, r):
             ctx.nt(digest([spec, r["X"]]))
         for pr in ([h["message"] for h in hits if h["contract"] == "K1"] or problems(det, n, p, y))[:1]:
             ctx.violation(sub, "malformed-output", f"{label}: {pr}", r)
+    elif outcome.startswith("RuntimeError") and "GaussianCovCost" in short(spec):
+        ctx.stat("zoo_documented_runtimeerror")
     else:
         ctx.violation(sub, f"valid-config-failed[{outcome.split('@')[0]}]",
                       f"{label}: inside the documented domain but {outcome}: {msg}", r)
@@ -417,6 +442,11 @@ def run(ctx):
         if exec_case(ctx, degenerate_recipe(ctx.rng)) is False:
             stuck += 1
             if stuck >= 3:  # three witnesses per shard are enough; each costs its full time limit
+                break
+    for i in range(DEGENERATE_CASES[ctx.tier] // 2):
+        if exec_case(ctx, extreme_recipe(ctx.rng, DETECTORS[i % len(DETECTORS)])) is False:
+            stuck += 1
+            if stuck >= 4:
                 break
 
 
